@@ -176,7 +176,8 @@ def run(out, tier, rng, work):
                 'waiting for veto, 1-2 request callbacks each; 1-5 requests, PGNs on boundaries, random and EE00, data page 0/1, destinations '
                 'owned, global and unowned; oracle: callbacks exactly at the operational owners (once per callback, with requester SA, '
                 'destination, PGN), EE00 answered by address-claimed frames with the NAME from the address, nothing from CAs without address; '
-                'dp=1: safety half only; handler logs replayed on the Coq model; non-trivial = some answer happened')
+                'dp=1: safety half only; handler logs replayed on the Coq model; non-trivial = some answer happened'
+                ' Request PGNs include the neighbours of the address-claim PGN; a family in which a fixed-address CA loses its address and its cannot-claim frame is refused by the driver (can.CanError).')
     out.assumptions = ['A1-A6 of DESIGN.md section 3', 'data page 1 requests are sent as PGN 0x1EA00 which receivers treat as an ordinary PDU1 message (recorded reading, DESIGN.md C14)']
     sprop.run_stateful(out, 'C14', tier, rng, work, FILES, gen, oracle, 150, 2500, nontrivial,
                        sample=lambda sc, res: dict(meta=sc['meta'][:3], requests=[e['a'] for e in sc['script'] if e['op'] == 'ca_request'][:3]))
